@@ -1,13 +1,16 @@
 --------------------------- MODULE ConfigValidate ---------------------------
-(* C13 (partial: the reference / shape clauses) -- configuration loading is strict.
+(* C13 (partial) -- configuration loading is strict: the reference / shape clauses and the unknown-key clause.
 
-   Covered clauses of the statement: a pipeline or service reference to a component that is not
-   defined, a processor listed twice in a pipeline, a pipeline without receivers or exporters, an
-   identifier shared by a connector and a receiver or exporter -- each "is rejected with an error
-   naming the offending entry instead of being ignored"; plus the empty configuration.
-   NOT covered (no state/transition content, see DESIGN 4 C13): per-field faithfulness of the
-   config structs, unknown keys at any depth, redaction, evaluation of every nested Validate() of the
-   built-in components.
+   Covered clauses of the statement: a key that no field accepts at any depth of a component or of the
+   service section (WriteKey, with its accepted negative twin), a pipeline or service reference to a
+   component that is not defined, a processor listed twice in a pipeline, a pipeline without receivers
+   or exporters, an identifier shared by a connector and a receiver or exporter -- each "is rejected
+   with an error naming the offending entry instead of being ignored"; plus the empty configuration.
+   Sibling modules: ValidateWalk (every nested validation rule is evaluated), ConfigOverlay (defaults
+   overlaid by exactly the written keys, over histories of loads).
+   NOT covered (see DESIGN 4 C13): per-field faithfulness of the built-in components' config structs,
+   redaction / the effective configuration marshalled for extensions, the Validate() rules of the
+   built-in components themselves.
 
    CONFIGURATIONS are built by the actions of PipelineGraph (same builder as C09, so every reachable
    pipeline configuration is complete and well-formed) and then damaged by DEFECT-INJECTING actions:
@@ -17,7 +20,8 @@
        AmbiguousID(c, k)   connector id c is additionally defined as a receiver / an exporter
        UseExt(x)           service::extensions lists x
        Blank               the document is empty
-   at most MaxDefects of them.
+   at most MaxDefects of them, and
+       WriteKey(place, k)  key k is written at a place of the document (at most MaxKeys; defined below)
 
    STATEMENT LEVEL: Defects = the set of offending entries of the configuration; the configuration
    must be rejected iff Defects # {} and the error must name one of them.
@@ -25,7 +29,8 @@
    IMPLEMENTATION SHAPED: Outcomes = what otelcol.Config.Validate (first error of a fixed sequence of
    checks, map iteration order free) together with the nested Validate() calls reached by the
    xconfmap.Validate walk (pipelines.Config.Validate, PipelineConfig.Validate: first error per
-   pipeline; all joined) can report.  Design property: every possible outcome is non-empty iff
+   pipeline; all joined) can report -- or, when the document has a key no field accepts, what the
+   decoder reports instead (nothing is validated then).  Design property: every possible outcome is non-empty iff
    Defects # {} and reports only entries of Defects. *)
 EXTENDS PipelineGraphMC
 
